@@ -158,3 +158,85 @@ def install(world):
         yield "shift-injective", z3.Implies(z3.And(r + dr == r2 + dr, c + dc == c2 + dc), z3.And(r == r2, c == c2))
 
     world.lemmas.append(Lemma("C15/inverse-and-bijection-lemmas", ["C15"], lemmas))
+
+
+# ----------------------------------------------------------------------------- WellRandomizer: methods on a well-formed object
+# wf(randomizer): `lookup` maps exactly the wells of the plate bijectively onto the wells of the plate, `lookup_reverse` is
+# its inverse, and in row / column mode the image stays in the row / column.  wf is established by the constructor
+# contract below (small concrete shapes, permutation symbolic); the methods are proved for every shape and every argument.
+
+
+def sym_randomizer(ex, mode):
+    from pyvc.ops import mk_bool
+    from pyvc.values import MapV, term
+    from pyvc import ops
+
+    R, Cn = z3.Int("R"), z3.Int("C")
+    ex.p.assume(z3.And(R >= 1, R <= 26, Cn >= 1))
+    I2 = (z3.IntSort(), z3.IntSort(), z3.IntSort())
+    pr, pc, ir, ic = (z3.Function(n, *I2) for n in ("perm_r", "perm_c", "inv_r", "inv_c"))
+    r, c = z3.Int("wf_r"), z3.Int("wf_c")
+    grid = z3.And(r >= 0, r < R, c >= 1, c <= Cn)
+
+    def on(a, b):
+        return z3.And(a >= 0, a < R, b >= 1, b <= Cn)
+
+    wf = [on(pr(r, c), pc(r, c)), on(ir(r, c), ic(r, c)),
+          ir(pr(r, c), pc(r, c)) == r, ic(pr(r, c), pc(r, c)) == c, pr(ir(r, c), ic(r, c)) == r, pc(ir(r, c), ic(r, c)) == c]
+    if mode == "row":
+        wf += [pr(r, c) == r]
+    if mode == "column":
+        wf += [pc(r, c) == c]
+    fwd = [w for w in wf if "inv_r(wf_r" not in str(w) and "inv_c(wf_r" not in str(w)]
+    bwd = [w for w in wf if w not in fwd]
+    # two axioms with explicit triggers: facts about perm(w) are instantiated where perm(w) occurs, facts about inv(w) where inv(w) occurs
+    ex.p.assume(z3.ForAll([r, c], z3.Implies(grid, z3.And(*fwd)), patterns=[z3.MultiPattern(pr(r, c)), z3.MultiPattern(pc(r, c))]))
+    ex.p.assume(z3.ForAll([r, c], z3.Implies(grid, z3.And(*bwd)), patterns=[z3.MultiPattern(ir(r, c)), z3.MultiPattern(ic(r, c))]))
+
+    def dom(key):
+        key = ops.to_abstract(key)
+        if not isinstance(key, WellV):
+            return False
+        return mk_bool(on(term(key.r, "int"), term(key.c, "int")))
+
+    def mk(fr_, fc_):
+        def fn(key):
+            key = ops.to_abstract(key)
+            a, b = term(key.r, "int"), term(key.c, "int")
+            return WellV(fr_(a, b), fc_(a, b))
+        return fn
+
+    o = Obj("WellRandomizer", {"__class__": classv(ex, "robotools.transform", "WellRandomizer")})
+    o.fields["original_shape"] = SeqV.of("tuple", [Sym(R, "int"), Sym(Cn, "int")])
+    o.fields["lookup"] = MapV(dom=dom, fn=mk(pr, pc))
+    o.fields["lookup_reverse"] = MapV(dom=dom, fn=mk(ir, ic))
+    o.fields["mode_ghost"] = mode
+    return o
+
+
+_install_c15 = install
+
+
+def install(world):  # noqa: F811
+    _install_c15(world)
+
+    def make(kind, mode):
+        def mk(ex):
+            return {"self": sym_randomizer(ex, mode), "wells": wells_arg(ex, kind)}
+        return mk
+
+    ON = f"forall(0, {NW}, lambda i: well_row({FLAT}[i]) < self.original_shape[0] and well_col({FLAT}[i]) <= self.original_shape[1])"
+    for name, fwd, back in (("randomize_wells", "lookup", "lookup_reverse"), ("derandomize_wells", "lookup_reverse", "lookup")):
+        register(world, Contract(
+            func=T + "WellRandomizer." + name, serves=["C15"],
+            requires=[ON],  # the property speaks about wells of the plate (others map to None)
+            scenarios=[Scenario(f"wells:{k}, mode {m}", make(k, m)) for k in KINDS for m in ("full", "row", "column")],
+            raises=[],
+            ensures=[("same-shape", "same_shape(result, wells)", ["C15"]),
+                     ("element-wise-lookup", f"forall(0, {NW}, lambda i: rowmajor(result)[i] == self.{fwd}[{FLAT}[i]])", ["C15"]),
+                     ("stays-on-plate", f"forall(0, {NW}, lambda i: well_row(rowmajor(result)[i]) >= 0 and well_row(rowmajor(result)[i]) < self.original_shape[0]"
+                                        f" and well_col(rowmajor(result)[i]) >= 1 and well_col(rowmajor(result)[i]) <= self.original_shape[1])", ["C15"]),
+                     ("inverse-undoes-it", f"forall(0, {NW}, lambda i: self.{back}[rowmajor(result)[i]] == {FLAT}[i])", ["C15"]),
+                     ("row-or-column-kept", f"forall(0, {NW}, lambda i: implies(self.mode_ghost == 'row', well_row(rowmajor(result)[i]) == well_row({FLAT}[i])) and "
+                                            f"implies(self.mode_ghost == 'column', well_col(rowmajor(result)[i]) == well_col({FLAT}[i])))", ["C15"])],
+        ))
